@@ -56,7 +56,7 @@ template <class T> static void run_factor(Choice &c, Ctx &cx)
     unsigned char workfill = c.u8();
     cx.hash = fnv1a(c.d, c.consumed(), 0xC08ULL ^ ((uint64_t)Tr<T>::letter << 32));
     if (cx.dump) { cx.d(fmt("%s n=%d fill=%d sweep=%s", P.ilu ? "gsitrf" : "gstrf", n, fill, exhaustive ? "every length" : "generated subset")); cx.d(opts_str(P.o, false)); if (P.ilu) cx.d(ilu_str(P.io)); cx.d(gmat_str(G, Tr<T>::is_complex)); }
-    cx.label(P.ilu ? "routine=gsitrf" : "routine=gstrf"); cx.label(exhaustive ? "sweep=exhaustive" : "sweep=subset");
+    cx.label(P.ilu ? "routine=gsitrf" : "routine=gstrf");
     if (cx.is_known("F-SS") && maybe_exactly_singular(G)) { cx.exclude("F-SS"); return; }
     unsigned char heapfill = cx.fill(0xA5);
     StorageCfg sys; sys.fill = fill;
@@ -69,7 +69,14 @@ template <class T> static void run_factor(Choice &c, Ctx &cx)
     StorageCfg q = sys; q.lwork = -1; FactorOutcome qo = factor_once<T>(P, q, heapfill, false);
     long est = (long)qo.info - n;
     if (qo.aborted || est <= 0) { cx.fail("size-query", fmt("size query through the factor routine returned info=%lld (n=%d)%s", qo.info, n, qo.aborted ? " after ABORT" : "")); return; }
-    long W = std::max<long>(est, (long)ref.total_needed) + 64;
+    // The size-query estimate and mem_usage.total_needed leave out the part of the dense work array that depends on the
+    // supernode / row-block tuning (NUM_TEMPV); with the stock tuning that part alone is 64 KB, so lengths around the
+    // estimate would never succeed.  W is the larger of the reported figures and the measured factors plus the real work arrays.
+    long panel = sp_ienv(1), maxsuper = std::max(sp_ienv(3), sp_ienv(7)), rowblk = sp_ienv(4);
+    long tail_true = (2 * panel + 2 + 3) * (long)P.m * (long)sizeof(int) + ((long)P.m * panel + std::max<long>(P.m, (maxsuper + rowblk) * panel)) * (long)sizeof(T) + 16;
+    long W = std::max<long>(std::max<long>(est, (long)ref.total_needed), (long)ref.for_lu + tail_true) + 64;
+    if (exhaustive && W > 6000) exhaustive = false;   // stock tuning: the work arrays alone take 64 KB; every length would be ~70000 factorizations
+    cx.label(exhaustive ? "sweep=exhaustive" : "sweep=subset");
     // ---- fault injection under library allocation: fail the k-th growth request ----------------------
     long nexp = ref.expand_allocs;     // 4 initial + growth requests
     int inj_k2 = 0;
@@ -96,6 +103,8 @@ template <class T> static void run_factor(Choice &c, Ctx &cx)
             lens.push_back(l); mis.push_back(pick_misalign(c.chance(128), cx));
         }
     }
+    // one generous length (4W + 4096): a workspace of sufficient size must give what library allocation gives (C07's "any sufficient size")
+    size_t generous = lens.size(); lens.push_back(4 * W + 4096); mis.push_back(pick_misalign(c.chance(128), cx));
     std::vector<SweepRec> recs; std::vector<int> crashed, hung;
     sweep<T>(P, lens, mis, fill, heapfill, workfill, recs, crashed, hung);
     int ok_runs = 0, short_after_growth = 0, ok_with_growth = 0, shortage = 0;
@@ -111,6 +120,7 @@ template <class T> static void run_factor(Choice &c, Ctx &cx)
         if (r.state != 2) continue;
         if (r.flags & FL_ABORT) { cx.fail("abort", where(i) + ": the library called ABORT instead of returning info > n"); return; }
         if (r.flags & FL_CANARY) { cx.fail("workspace-overrun", where(i) + ": a byte outside [work, work+lwork) was written"); return; }
+        if (r.info > n && i == generous && !(ref.info > n)) { cx.fail("shortage-in-generous-workspace", where(i) + fmt(": info=%lld (shortage) although the estimate is %ld, the measured requirement %ld and library allocation succeeds", r.info, est, (long)ref.for_lu + tail_true)); return; }
         if (r.info > n) { ++shortage; if (r.glu_exp >= 1) ++short_after_growth; if ((r.flags & FL_LEAK)) { if (cx.is_known("F16")) cx.exclude("F16"); else { cx.fail("leak", where(i) + fmt(": info=%lld (shortage) but library allocations were left behind", r.info)); return; } } continue; }
         if (r.flags & FL_LEAK) { cx.fail("leak", where(i) + ": allocations left behind after a successful factorization"); return; }
         if (r.info != ref.info) { cx.fail("info-differs", where(i) + fmt(": info=%lld, library allocation gives %lld", r.info, ref.info)); return; }
@@ -118,6 +128,7 @@ template <class T> static void run_factor(Choice &c, Ctx &cx)
         if (r.info == 0 && r.digest != ref.digest) { cx.fail("factors-differ", where(i) + ": permutations/factors are not bit-identical to those obtained with library allocation"); return; }
         ++ok_runs; if (r.glu_exp >= 1) ++ok_with_growth;
     }
+    if (cx.dump && !exhaustive) { std::string l = fmt("W=%ld est=%ld measured=%ld; per length:", W, est, (long)ref.total_needed); for (size_t i = 0; i < recs.size(); ++i) l += fmt(" %ld%s->%lld", lens[i], mis[i] ? "+4" : "", recs[i].state == 2 ? recs[i].info : -999LL); cx.d(l); }
     cx.label(fmt("lengths=%zu", std::min<size_t>(lens.size() / 100 * 100, 2000)));
     if (short_after_growth) cx.label("shortage-after-in-buffer-growth"); if (ok_with_growth) cx.label("success-with-in-buffer-growth"); if (inj_k2) cx.label("injected-failure-k>=2");
     if (ok_runs == 0) cx.label("no-length-succeeded");
@@ -179,7 +190,101 @@ template <class T> static void run_query(Choice &c, Ctx &cx)
     cx.nontrivial = true;
 }
 
-template <class T> static void run_T(Choice &c, Ctx &cx) { if (c.chance(70)) run_query<T>(c, cx); else run_factor<T>(c, cx); }
+// ---- the same workspace used again: fresh factorization, then re-factorizations that re-use it ------------------------
+// ?gssvx with a caller workspace of a generated length (from far too small to generous, 8-byte aligned or offset by 4), then
+// up to three more calls with other values and Fact = SamePattern_SameRowPerm (factors re-used in place inside the same
+// workspace) or FACTORED (solve only).  After every call: guard zones intact; info > n + 1 (shortage) or a result whose
+// factors satisfy C02/C03 for the matrix just factored.
+template <class T> static void run_reuse(Choice &c, Ctx &cx)
+{
+    typedef typename Tr<T>::R R; typedef typename Wide<T>::W W;
+    const bool cplx = Tr<T>::is_complex, single = sizeof(R) == 4;
+    int n = gen_size(c, cx.tier, 10, 24);
+    std::string family;
+    auto pat = gen_pattern(c, n, n, PAT_NONSING, family);
+    GMat G = gen_values(c, n, n, pat, cplx, single, family);
+    Opts o = gen_opts(c, n, single, true, true);
+    o.refine = NOREFINE;
+    int nrhs = (int)c.below(2);
+    unsigned char workfill = c.u8();
+    cx.hash = fnv1a(c.d, c.consumed(), 0xC08CULL ^ ((uint64_t)Tr<T>::letter << 32));
+    if (cx.is_known("F-SS") && maybe_exactly_singular(G)) { cx.exclude("F-SS"); cx.label("exactly-singular(excluded)"); return; }
+    if (cplx && o.nr && o.trans == CONJ && cx.is_known("F07")) o.trans = TRANS;
+    // the estimate for this problem comes from a size query; the generated length is a fraction / multiple of it
+    long est = 0;
+    {
+        vf_case_begin(cx.fill(0xA5)); apply_tuning(o.tune);
+        Expert<T> q; q.init(n, 0, n, n); q.S = to_comp<T>(G, o.nr, nullptr); q.B.assign(1, sentinel_value<T>()); apply_opts(o, q.so); q.so.Equil = NO;
+        if (o.colperm == MY_PERMC) q.perm_c = o.my_perm_c;
+        q.lwork = -1; q.bind();
+        if (q.call()) { cx.fail("abort", fmt("size query: library called ABORT: %s", vf_abort_msg())); vf_purge(); return; }
+        est = (long)q.info - n; q.lu_live = false; q.teardown(); vf_purge();
+        if (est <= 0) { cx.fail("query-info", fmt("size query returned info=%lld", (long long)q.info)); return; }
+    }
+    { long panel = sp_ienv(1), maxsuper = std::max(sp_ienv(3), sp_ienv(7)), rowblk = sp_ienv(4); est += std::max<long>(0, (maxsuper + rowblk) * panel - n) * (long)sizeof(T); }   // the tuning-dependent part of the dense work array (see run_factor)
+    static const int num[] = {2, 5, 7, 8, 9, 10, 12, 12, 16, 16, 24, 32};
+    long lwork = est * num[c.below(12)] / 8 + (long)c.below(64);
+    int mis = pick_misalign(c.chance(128), cx);
+    if (cx.dump) { cx.d(fmt("workspace re-use through gssvx n=%d nrhs=%d estimate=%ld lwork=%ld base%%8=%d", n, nrhs, est, lwork, mis)); cx.d(opts_str(o, true)); cx.d(gmat_str(G, cplx)); }
+    cx.label("routine=gssvx(workspace re-use)"); cx.label(mis ? "base%8=4" : "base%8=0");
+    vf_case_begin(cx.fill(0xA5)); apply_tuning(o.tune);
+    GuardedWork gw; gw.make(lwork, mis, workfill);
+    Expert<T> e; e.init(n, nrhs, n, n);
+    e.S = to_comp<T>(G, o.nr, o.shuffle_rows ? &c : nullptr);
+    apply_opts(o, e.so); if (o.colperm == MY_PERMC) e.perm_c = o.my_perm_c;
+    e.work = gw.work; e.lwork = (int_t)lwork;
+    int refactored = 0, shortage_at = -1; bool ok = true;
+    int steps = 1 + (int)c.below(4);
+    for (int st = 0; st < steps && ok; ++st) {
+        bool resolve = st > 0 && c.chance(60);
+        if (st > 0 && !resolve) {   // other values on the same pattern (kept well away from exact singularity by the generator's families)
+            GMat G2 = G; ValGen g; g.kind = c.chance(128) ? 1 : 0; g.cmode = 0; g.expK = 0; g.explicit_zero = false;
+            for (auto &col : G2.col) for (auto &en : col) en.second = g.value(c, cplx);
+            if (cx.is_known("F-SS") && maybe_exactly_singular(G2)) { cx.exclude("F-SS"); break; }
+            G = G2;
+            Comp<T> fresh = to_comp<T>(G, o.nr, nullptr);
+            std::map<std::pair<int_t, int_t>, T> mv; for (int kk = 0; kk < n; ++kk) for (int_t p = fresh.ptr[kk]; p < fresh.ptr[kk + 1]; ++p) mv[{(int_t)kk, fresh.idx[p]}] = fresh.val[p];
+            for (int kk = 0; kk < n; ++kk) for (int_t p = e.S.ptr[kk]; p < e.S.ptr[kk + 1]; ++p) e.S.val[p] = mv[{(int_t)kk, e.S.idx[p]}];
+        }
+        e.so.Fact = st == 0 ? DOFACT : (resolve ? FACTORED : SamePattern_SameRowPerm);
+        e.nrhs = resolve && nrhs == 0 ? 1 : nrhs;
+        e.B = gen_rhs<T>(c, n, e.nrhs, n, cplx); e.X.assign((size_t)n * e.nrhs + 1, sentinel_value<T>());
+        e.ferr.assign(std::max(e.nrhs, 1), (R)-77); e.berr.assign(std::max(e.nrhs, 1), (R)-77);
+        e.bind();
+        std::string tag = fmt("call %d (%s)", st, st == 0 ? "DOFACT" : (resolve ? "FACTORED" : "SamePattern_SameRowPerm"));
+        if (cx.dump) cx.d(tag);
+        bool ab = e.call();
+        std::string gm;
+        if (!gw.verify(gm)) { cx.fail("workspace-overrun", fmt("%s, lwork=%ld base%%8=%d: %s", tag.c_str(), lwork, mis, gm.c_str())); ok = false; break; }
+        if (ab) { cx.fail("abort", tag + ": library called ABORT: " + vf_abort_msg()); ok = false; break; }
+        long long info = e.info;
+        if (info < 0) { cx.fail("info", tag + fmt(": valid call returned info=%lld", info)); ok = false; break; }
+        if (info > n + 1) { shortage_at = st; e.lu_live = false; break; }   // shortage: nothing more can be asked of this workspace
+        if (info >= 1 && info <= n) { cx.label("singular-return"); break; }
+        if (!resolve) {
+            Dense<W> AA = factored_matrix(e); LUDecoded<T> dec;
+            if (!check_lu<T>(cx, AA, e.perm_r.data(), e.perm_c.data(), &e.L, &e.U, o.u, st == 0, false, dec)) { cx.msg = tag + fmt(", lwork=%ld base%%8=%d: ", lwork, mis) + cx.msg; ok = false; break; }
+            if (dec.degenerate) { cx.skip("overflow-degenerate"); break; }
+            // the factors handed back live inside the workspace
+            const SCformat *Ls = (const SCformat *)e.L.Store; const NCformat *Us = (const NCformat *)e.U.Store;
+            const unsigned char *w0 = gw.work, *w1 = gw.work + lwork;
+            auto inside = [&](const void *p) { return (const unsigned char *)p >= w0 && (const unsigned char *)p < w1; };
+            if (!inside(Ls->nzval) || !inside(Ls->rowind) || !inside(Us->nzval) || !inside(Us->rowind)) { cx.fail("factors-outside-workspace", tag + ": lwork > 0 but a factor array does not lie inside work[]"); ok = false; break; }
+            if (st > 0) ++refactored;
+        }
+    }
+    if (ok || e.aborted) { /* fallthrough to cleanup */ }
+    if (!e.aborted) { e.teardown(); } else { e.lu_live = false; }
+    gw.release();
+    if (!ok) { vf_purge(); return; }
+    if (cx.skipped) { vf_purge(); return; }
+    if (!ledger_clean(cx, "after the workspace history")) return;
+    if (shortage_at >= 0) cx.label(fmt("shortage-at-call-%d", shortage_at));
+    if (refactored) cx.label("refactored-in-workspace");
+    cx.nontrivial = refactored > 0 || shortage_at >= 0;
+}
+
+template <class T> static void run_T(Choice &c, Ctx &cx) { unsigned k = c.below(256); if (k < 70) run_query<T>(c, cx); else if (k < 110) run_reuse<T>(c, cx); else run_factor<T>(c, cx); }
 
 static void run(char type, Choice &c, Ctx &cx)
 {
@@ -196,6 +301,7 @@ const PropInfo vf_prop = {
     "(1) a generated problem (n <= 8, ?gstrf or ?gsitrf, fill estimate in {1,2,3,5,30}) is first factored with library allocation; then EVERY workspace length 1..W+128 (W = max(size-query estimate, measured need)+64) for a sample of problems and 16..31 generated lengths "
     "(tiny, around W, 2W) for the rest, with 8-byte aligned and 4-byte offset bases and arbitrary initial contents, each length in a forked child that publishes the length it is running so that a crash or a >10 s stall is attributed to it; "
     "every allocation-failure position among the factor-growth requests is injected under library allocation; (2) size queries (lwork=-1) through ?gssvx / ?gsisx; "
+    "(3) one guarded workspace (length = 1/4 .. 4x the estimated requirement, base 0 or 4 mod 8) used for a fresh ?gssvx factorization and then re-used by up to three calls with SamePattern_SameRowPerm / FACTORED; "
     "oracle: guard zones around [work, work+lwork) poisoned for ASan and canary-filled; outcome per length is info > n, or the same info and bit-identical factors as library allocation with C02/C03 intact; never ABORT, signal or stall; "
     "injected failures give info > n; a size query returns info = n + estimate = n + mem_usage.total_needed and leaves A, B, X, L, U, perm_r and the workspace bytes untouched (perm_c, etree, R, C, equed are documented outputs); "
     "non-trivial = shortage or success after >= 1 in-buffer expansion, an injected failure at k >= 2, or a size query; distinct = hash of consumed stream prefix and type",
